@@ -20,9 +20,14 @@ R = Registry(
         "are built only under `_has_row_limiting_clause`, when OFFSET/FETCH is unavailable and not re-entrantly, "
         "and number the rows in the statement's ORDER BY; every limit_clause / fetch_clause implementation puts "
         "the limit in the count position and the offset in the skip position of its grammar for every "
-        "combination, with a filler LIMIT where OFFSET alone is not accepted and OFFSET 0 ROWS where required."
+        "combination, with a filler LIMIT where OFFSET alone is not accepted and OFFSET 0 ROWS where required; "
+        "slice(start, stop) composes with an existing OFFSET as offset + start on every path of sql.util._make_slice "
+        "and sets LIMIT to stop - start / stop, Core and ORM slice() pass and store the values alike (R4); every "
+        "renderer of the FETCH value consults both fetch options (percent, with_ties) and no call substitutes "
+        "default options (explicit fetch_clause=) where the statement may carry a FETCH (R5)."
     ),
-    not_decided="the rows returned by a backend; FETCH PERCENT / WITH TIES semantics; interaction with DISTINCT/GROUP BY.",
+    not_decided="the rows returned by a backend; the backend's own semantics of PERCENT / WITH TIES; interaction with "
+                "DISTINCT/GROUP BY; that slice() replaces (does not intersect with) an existing LIMIT.",
 )
 
 MSSQL = "dialects/mssql/base.py::MSSQLCompiler"
@@ -393,6 +398,382 @@ def r3(ctx):
               "ROWNUM over aliased ordered inner select", f.loc)
 
 
+# ------------------------------------------------------------------------------------------ R4 (str-e)
+class Lin:
+    """linear form over positive symbols: {sym: coef} + const"""
+    __slots__ = ("terms", "const")
+
+    def __init__(self, terms=(), const=0):
+        self.terms = {k: v for k, v in dict(terms).items() if v}
+        self.const = const
+
+    @staticmethod
+    def of(v):
+        if isinstance(v, Lin):
+            return v
+        if isinstance(v, bool) or not isinstance(v, int):
+            return None
+        return Lin((), v)
+
+    def _comb(self, other, sign):
+        o = Lin.of(other)
+        if o is None:
+            return None
+        t = dict(self.terms)
+        for k, v in o.terms.items():
+            t[k] = t.get(k, 0) + sign * v
+        return Lin(t, self.const + sign * o.const)
+
+    def nonzero(self):
+        """True / False / None under 'every symbol is a positive integer'."""
+        if not self.terms:
+            return self.const != 0
+        vals = list(self.terms.values())
+        if all(v > 0 for v in vals) and self.const >= 0:
+            return True
+        if all(v < 0 for v in vals) and self.const <= 0:
+            return True
+        return None
+
+    def key(self):
+        return (tuple(sorted(self.terms.items())), self.const)
+
+    def __eq__(self, o):
+        return isinstance(o, Lin) and self.key() == o.key()
+
+    def __hash__(self):
+        return hash(self.key())
+
+    def __repr__(self):
+        parts = [(f"{k}" if v == 1 else f"-{k}" if v == -1 else f"{v}*{k}") for k, v in sorted(self.terms.items())]
+        if self.const or not parts:
+            parts.append(str(self.const))
+        return " + ".join(parts).replace("+ -", "- ")
+
+
+def _value_preserving(fn: FuncInfo) -> bool:
+    """A one-argument coercion: every return is None or derives from the first parameter, no arithmetic."""
+    if not fn.params:
+        return False
+    tainted = {fn.params[0]}
+    for _ in range(3):
+        for n, v, st in name_stores(fn.node):
+            if v is not None and any(isinstance(x, ast.Name) and x.id in tainted for x in ast.walk(v)):
+                tainted.add(n)
+    if any(isinstance(x, ast.BinOp) for x in ast.walk(fn.node)):
+        return False
+    rets = [r for r in walk_local(fn.node) if isinstance(r, ast.Return)]
+    if not rets:
+        return False
+    for r in rets:
+        if r.value is None or (isinstance(r.value, ast.Constant) and r.value.value is None):
+            continue
+        if not any(isinstance(x, ast.Name) and x.id in tainted for x in ast.walk(r.value)):
+            return False
+    return True
+
+
+class SliceExec(SymExec):
+    """SymExec + integer/linear arithmetic and ==/!= on it; same-module one-argument coercions are the identity."""
+
+    def __init__(self, index, module, what):
+        super().__init__(attr=None, call=self._call, what=what)
+        self.index = index
+        self.module = module
+
+    def _call(self, n, env, sx, events):
+        if isinstance(n.func, ast.Name) and len(n.args) >= 1 and not n.keywords:
+            r = self.index.resolve(self.module, n.func.id)
+            if isinstance(r, FuncInfo) and _value_preserving(r) and len(n.args) == 1:
+                return self.ev(n.args[0], env, events)
+        return NotImplemented
+
+    def ev(self, n, env, events):
+        if isinstance(n, ast.BinOp) and isinstance(n.op, (ast.Add, ast.Sub)):
+            a, b = self.ev(n.left, env, events), self.ev(n.right, env, events)
+            la, lb = Lin.of(a), Lin.of(b)
+            if la is not None and lb is not None:
+                return la._comb(lb, 1 if isinstance(n.op, ast.Add) else -1)
+            return OPAQUE
+        return super().ev(n, env, events)
+
+    def truth(self, n, env, events):
+        if isinstance(n, ast.Compare) and len(n.ops) == 1 and isinstance(n.ops[0], (ast.Eq, ast.NotEq)):
+            a, b = self.ev(n.left, env, events), self.ev(n.comparators[0], env, events)
+            la, lb = Lin.of(a), Lin.of(b)
+            if la is not None and lb is not None:
+                nz = la._comb(lb, -1).nonzero()
+                if nz is None:
+                    return None
+                return (not nz) if isinstance(n.ops[0], ast.Eq) else nz
+            if (a is None) != (b is None) and a is not OPAQUE and b is not OPAQUE:
+                return isinstance(n.ops[0], ast.NotEq)
+            return None
+        if isinstance(n, (ast.Name, ast.Attribute, ast.Call, ast.BinOp)):
+            v = self.ev(n, env, events)
+            if isinstance(v, Lin):
+                return v.nonzero()
+        return super().truth(n, env, events)
+
+
+def _slice_sites(ctx, target):
+    """[(caller, call, roles{role: position}, result order [role,..])] for every call of _make_slice."""
+    found = []
+    for m in ctx.index.all_modules():
+        if target.name + "(" not in m.source:
+            continue
+        for cf in ctx.index.all_functions(m):
+            if cf is target or cf.is_overload:
+                continue
+            for cc in calls_in(cf.node):
+                # the callee is module-private and reached through module aliases (`sql_util._make_slice`, also via
+                # util.preloaded locals), so it is matched by its (unique) name
+                if (call_name(cc) or "").rsplit(".", 1)[-1] == target.name:
+                    found.append((cf, cc))
+    found.sort(key=lambda x: (x[0].module.relpath != "sql/selectable.py", x[0].module.relpath, x[1].lineno))
+    out = []
+    for cf, cc in found:
+        own = [p for p in cf.params if p not in ("self", "cls")]
+        roles = {}
+        for i, a in enumerate(cc.args):
+            if isinstance(a, ast.Attribute) and isinstance(a.value, ast.Name) and a.value.id == "self":
+                if a.attr == "_limit_clause":
+                    roles.setdefault("limit", i)
+                elif a.attr == "_offset_clause":
+                    roles.setdefault("offset", i)
+            elif isinstance(a, ast.Name) and a.id in own[:2]:
+                roles.setdefault("start" if own.index(a.id) == 0 else "stop", i)
+        pm = cf.module.parents()
+        st = pm.get(cc)
+        order = None
+        if isinstance(st, ast.Assign) and len(st.targets) == 1 and isinstance(st.targets[0], ast.Tuple):
+            order = []
+            for t in st.targets[0].elts:
+                if isinstance(t, ast.Attribute) and isinstance(t.value, ast.Name) and t.value.id == "self" \
+                        and t.attr in ("_limit_clause", "_offset_clause"):
+                    order.append("limit" if t.attr == "_limit_clause" else "offset")
+                else:
+                    order = None
+                    break
+        out.append((cf, cc, roles, order))
+    return out
+
+
+@R.rule("C18-R4", floor=14, template="T-FLOW (symbolic composition of slice() with the existing LIMIT/OFFSET, all paths)",
+        desc="sql.util._make_slice: for every presence combination of start/stop (start zero or not) over a statement "
+             "with or without an existing OFFSET, the new OFFSET is `existing offset + start` on every path (an "
+             "existing OFFSET is never dropped, start is never lost) and the new LIMIT is `stop - start` / `stop` / "
+             "unchanged; every slice() implementation passes (limit, offset, start, stop) and stores the result the same way")
+def r4(ctx):
+    target = ctx.func("sql/util.py::_make_slice")
+    ctx.functions_analysed.add(target.key)
+    sites = _slice_sites(ctx, target)
+    ctx.require(len(sites) >= 2, f"expected the Core and ORM slice() callers of _make_slice, found {[s[0].key for s in sites]}")
+    ref = None
+    for cf, cc, roles, order in sites:
+        ctx.functions_analysed.add(cf.key)
+        key = f"{cf.key}:_make_slice-arguments"
+        ctx.require(set(roles) == {"limit", "offset", "start", "stop"} and order is not None and sorted(order) == ["limit", "offset"],
+                    f"{cf.key}: call `{unparse(cc)[:90]}` / its result unpacking not understood")
+        if ref is None:
+            ref = (roles, order, cf)
+            ctx.ok(key, f"passes {sorted(roles, key=roles.get)}, stores {order}")
+        else:
+            ctx.check((roles, order) == ref[:2], key,
+                      f"passes {sorted(roles, key=roles.get)} and stores the result as {order}, but {ref[2].qualname} passes "
+                      f"{sorted(ref[0], key=ref[0].get)} and stores {ref[1]}: one of them swaps LIMIT and OFFSET / start and stop",
+                      f"same argument and result order as {ref[2].qualname}", f"{cf.module.path}:{cc.lineno}")
+    roles, order, _ = ref
+    params = [p for p in target.params]
+    ctx.require(len(params) >= 4 and max(roles.values()) < len(params), "_make_slice signature not understood")
+    pname = {r: params[i] for r, i in roles.items()}
+    O0, L0, S, T = Lin({"offset": 1}), Lin({"limit": 1}), Lin({"start": 1}), Lin({"stop": 1})
+    starts = {"none": None, "0": Lin((), 0), "n": S}
+    stops = {"none": None, "m": T}
+
+    def norm_off(v):
+        return Lin((), 0) if v is None else v
+
+    for sk, sv in starts.items():
+        for tk, tv in stops.items():
+            for ok_, ov in (("no-offset", None), ("offset", O0)):
+                key = f"{target.key}:[{sk}:{tk}]-{ok_}"
+                problems, unknown = [], []
+                npaths = 0
+                for lv in (None, L0):
+                    env = {pname["limit"]: lv, pname["offset"]: ov, pname["start"]: sv, pname["stop"]: tv}
+                    sx = SliceExec(ctx.index, target.module, target.key)
+                    for kind, val, env2, events in sx.run(target.node.body, env):
+                        if kind == "raise":
+                            continue
+                        npaths += 1
+                        if kind != "return" or not isinstance(val, tuple) or len(val) != 2:
+                            unknown.append(f"a path ends with {kind} {val!r}")
+                            continue
+                        got = dict(zip(order, val))
+                        want_off = ov if sv is None else norm_off(ov)._comb(sv, 1)
+                        want_lim = lv if tv is None else (tv if sv is None else tv._comb(sv, -1))
+                        go, gl = got["offset"], got["limit"]
+                        if go is OPAQUE or gl is OPAQUE or not (go is None or isinstance(go, Lin)) or not (gl is None or isinstance(gl, Lin)):
+                            unknown.append(f"a path returns {val!r}")
+                            continue
+                        if norm_off(go) != norm_off(want_off):
+                            what = "the statement's existing OFFSET is dropped" if (ov is not None and "offset" not in norm_off(go).terms) \
+                                else "the slice start is lost" if (sv is S and "start" not in norm_off(go).terms) else "wrong OFFSET"
+                            problems.append(f"OFFSET becomes `{go}` instead of `{want_off}` ({what})")
+                        if (gl is None) != (want_lim is None) or (gl is not None and gl != want_lim):
+                            problems.append(f"LIMIT becomes `{gl}` instead of `{want_lim}`")
+                ctx.require(not unknown, f"{target.key} [{sk}:{tk}] {ok_}: {unknown[:2]} (not understood)")
+                ctx.require(npaths > 0, f"{target.key} [{sk}:{tk}] {ok_}: no returning path")
+                ctx.check(not problems, key,
+                          f"slice[{sk}:{tk}] applied to a statement {'with an existing OFFSET' if ov is not None else 'without OFFSET'}: "
+                          + "; ".join(sorted(set(problems))) + " -- the rows returned are not rows [start:stop] of the already offset result",
+                          f"offset' = offset + start, limit' = stop - start over {npaths} path(s)", target.loc)
+
+
+# ------------------------------------------------------------------------------------------ R5 (str-e)
+OPTION_KEYS = ("percent", "with_ties")
+
+
+def _option_reads(node):
+    """option keys read as `<x>._fetch_clause_options[<key>]` or `<local bound to it>[<key>]` inside node."""
+    keys = set()
+    for n in ast.walk(node):
+        if isinstance(n, ast.Subscript) and isinstance(n.slice, ast.Constant) and n.slice.value in OPTION_KEYS:
+            keys.add(n.slice.value)
+    return keys
+
+
+def _renders_fetch_value(f: FuncInfo):
+    """Does the function turn the statement's FETCH value into SQL text?  (processes `_fetch_clause`, a local bound
+    to it, or the result of a limit-or-fetch helper)"""
+    fetchy = set()
+    for n, v, st in name_stores(f.node):
+        if v is not None and any((isinstance(x, ast.Attribute) and x.attr == "_fetch_clause") for x in ast.walk(v)):
+            fetchy.add(n)
+    if "fetch_clause" in f.params:
+        fetchy.add("fetch_clause")
+    for c in calls_in(f.node):
+        if isinstance(c.func, ast.Attribute) and c.func.attr == "process" and c.args:
+            a = c.args[0]
+            if isinstance(a, ast.Attribute) and a.attr == "_fetch_clause":
+                return True
+            if isinstance(a, ast.Name) and a.id in fetchy:
+                return True
+            if isinstance(a, ast.Call) and (call_name(a) or "").endswith("_get_limit_or_fetch"):
+                return True
+    return False
+
+
+def _raises_on_options(fn: FuncInfo) -> bool:
+    """A checker: raises under a test that reads both fetch options."""
+    pm = fn.module.parents()
+    for r in ast.walk(fn.node):
+        if isinstance(r, ast.Raise):
+            keys = set()
+            for t, pol in lexical_guards(pm, r, stop=fn.node):
+                if pol:
+                    keys |= _option_reads(t)
+            if keys >= set(OPTION_KEYS):
+                return True
+    return False
+
+
+@R.rule("C18-R5", floor=6, template="T-SIBLING / T-GUARD (FETCH options reach every FETCH renderer)",
+        desc="every compiler method that renders the statement's FETCH value (FETCH FIRST / TOP) consults both "
+             "_fetch_clause_options (percent, with_ties); a call `fetch_clause(select, fetch_clause=<explicit>)`, for which "
+             "SQLCompiler.fetch_clause substitutes default options, is made only where the statement has no FETCH "
+             "(`select._fetch_clause is None` dominates), passes the LIMIT itself, or after a checker that rejects the options")
+def r5(ctx):
+    ix = ctx.index
+    base = ix.cls("sql/compiler.py::SQLCompiler")
+    classes = [base] + sorted(ix.subclasses(base), key=lambda c: c.key)
+    # (a) renderers
+    renderers = []
+    for cls in classes:
+        for name, f in sorted(cls.methods.items()):
+            if f.is_overload or not _renders_fetch_value(f):
+                continue
+            renderers.append(f)
+    ctx.require(len(renderers) >= 3, f"FETCH renderers not found ({[f.key for f in renderers]})")
+    for f in renderers:
+        ctx.functions_analysed.add(f.key)
+        keys = _option_reads(f.node)
+        ctx.check(keys >= set(OPTION_KEYS), f"{f.key}:fetch-options",
+                  f"{f.qualname} renders the FETCH value but reads only {sorted(keys) or 'none'} of the options "
+                  f"{list(OPTION_KEYS)}: FETCH ... WITH TIES / PERCENT would be rendered as a plain row count",
+                  "reads percent and with_ties", f.loc)
+    # (b) does the base substitute default options for an explicit fetch_clause= ?
+    bf = base.methods.get("fetch_clause")
+    ctx.require(bf is not None and "fetch_clause" in bf.params, "SQLCompiler.fetch_clause(select, fetch_clause=...) vanished")
+    pmb = bf.module.parents()
+    resets = False
+    for n, v, st in name_stores(bf.node):
+        if isinstance(v, ast.Dict) and {getattr(k, "value", None) for k in v.keys} >= set(OPTION_KEYS) \
+                and all(isinstance(x, ast.Constant) for x in v.values):
+            atoms = guard_atoms(lexical_guards(pmb, st, stop=bf.node))
+            if ("fetch_clause is None", False) in atoms:
+                resets = True
+    sites = []
+    for cls in classes:
+        for name, f in sorted(cls.methods.items()):
+            if f.is_overload:
+                continue
+            for c in calls_in(f.node):
+                if isinstance(c.func, ast.Attribute) and c.func.attr == "fetch_clause":
+                    kw = {k.arg: k.value for k in c.keywords if k.arg}
+                    if "fetch_clause" in kw:
+                        sites.append((f, c, kw["fetch_clause"]))
+    ctx.require(len(sites) >= 2, "no call of fetch_clause(.., fetch_clause=<explicit>) found")
+    for f, c, val in sites:
+        ctx.functions_analysed.add(f.key)
+        key = f"{f.key}:explicit-fetch_clause"
+        if not resets:
+            ctx.ok(key, "SQLCompiler.fetch_clause keeps the statement's options for an explicit fetch_clause", nontrivial=False)
+            continue
+        if isinstance(val, ast.Name) and val.id == "fetch_clause" and "fetch_clause" in f.params:
+            ctx.ok(key, "passes its own fetch_clause parameter through", nontrivial=False)
+            continue
+        if isinstance(val, ast.Constant) and val.value is None:
+            ctx.ok(key, "fetch_clause=None: options taken from the statement")
+            continue
+        if isinstance(val, ast.Attribute) and val.attr == "_limit_clause":
+            ctx.ok(key, "passes the LIMIT itself")
+            continue
+        pm = f.module.parents()
+        g = ctx.cfg(f)
+        st = enclosing_stmt_of(pm, c)
+        guards = list(lexical_guards(pm, c, stop=f.node))
+        nodes = g.nodes_for(st)
+        for nid in nodes:
+            guards.extend(g.edge_guards(nid))
+        atoms = set(guard_atoms(guards))
+        no_fetch = any(a.endswith("._fetch_clause is None") and p for a, p in atoms)
+        checked = False
+        for c2 in calls_in(f.node):
+            nm = call_name(c2) or ""
+            if nm.startswith("self.") and nm.count(".") == 1 and c2 is not c:
+                tgt = ix.resolve_method(f.cls, nm.split(".")[1])
+                if tgt is not None and _raises_on_options(tgt):
+                    cn = [i for i in g.nodes_containing(c2)]
+                    if cn and all(g.always_preceded(n_, cn) is None for n_ in nodes):
+                        checked = True
+        ctx.check(no_fetch or checked, key,
+                  f"{f.qualname} calls fetch_clause(..., fetch_clause={unparse(val)[:50]}) on a path where the statement may "
+                  f"carry a FETCH clause (no dominating `select._fetch_clause is None`, no options check before it); "
+                  f"SQLCompiler.fetch_clause substitutes percent=False / with_ties=False for an explicit fetch_clause, so "
+                  f"FETCH ... WITH TIES / PERCENT loses its options",
+                  "statement has no FETCH here" if no_fetch else "options rejected by a checker before the call",
+                  f"{f.module.path}:{c.lineno}")
+
+
+def enclosing_stmt_of(pm, node):
+    cur = node
+    while cur is not None and not isinstance(cur, ast.stmt):
+        cur = pm.get(cur)
+    return cur
+
+
 # ------------------------------------------------------------------------------------------ self test
 MS = "dialects/mssql/base.py"
 OR = "dialects/oracle/base.py"
@@ -429,3 +810,46 @@ R.mutant("benign-mssql-commuted-sum", MS, sub("                        mssql_rn 
 R.mutant("benign-pg-limit-local", "dialects/postgresql/base.py",
          sub('            text += " \\n LIMIT " + self.process(select._limit_clause, **kw)\n        if select._offset_clause is not None:\n            if select._limit_clause is None:\n                text += "\\n LIMIT ALL"',
              '            lim = self.process(select._limit_clause, **kw)\n            text += " \\n LIMIT " + lim\n        if select._offset_clause is not None:\n            if select._limit_clause is None:\n                text += "\\n LIMIT ALL"'), None)
+
+# ---- R4 / R5 (str-e): seeds C18/1, C18/2 and relatives
+UT = "sql/util.py"
+_SLICE_BOTH = ("        offset_clause = _offset_or_limit_clause_asint_if_possible(\n            offset_clause\n        )\n        if offset_clause is None:\n            offset_clause = 0\n\n"
+               "        if start != 0:\n            offset_clause = offset_clause + start  # type: ignore[operator]\n\n"
+               "        if offset_clause == 0:\n            offset_clause = None\n        else:\n            assert offset_clause is not None\n            offset_clause = _offset_or_limit_clause(offset_clause)\n\n"
+               "        limit_clause = _offset_or_limit_clause(stop - start)\n")
+R.mutant("seed1-slice-from-zero-drops-existing-offset", UT,
+         sub(_SLICE_BOTH,
+             "        if start != 0:\n            offset_clause = _offset_or_limit_clause_asint_if_possible(\n                offset_clause\n            )\n            if offset_clause is None:\n                offset_clause = 0\n\n"
+             "            offset_clause = _offset_or_limit_clause(\n                offset_clause + start  # type: ignore[operator]\n            )\n        else:\n            # slice begins at the first row, no OFFSET to render\n            offset_clause = None\n\n"
+             "        limit_clause = _offset_or_limit_clause(stop - start)\n"), "C18-R4")
+R.mutant("r4-limit-forgets-start", UT,
+         sub("        limit_clause = _offset_or_limit_clause(stop - start)\n", "        limit_clause = _offset_or_limit_clause(stop)\n"), "C18-R4")
+R.mutant("r4-open-slice-replaces-offset", UT,
+         sub("        if start != 0:\n            offset_clause = offset_clause + start\n\n", "        if start != 0:\n            offset_clause = start\n\n"), "C18-R4")
+R.mutant("r4-start-not-added", UT,
+         sub("        if start != 0:\n            offset_clause = offset_clause + start  # type: ignore[operator]\n\n", ""), "C18-R4")
+R.mutant("r4-query-slice-swaps-limit-offset", "orm/query.py",
+         sub("        self._limit_clause, self._offset_clause = sql_util._make_slice(\n            self._limit_clause, self._offset_clause, start, stop\n        )",
+             "        self._limit_clause, self._offset_clause = sql_util._make_slice(\n            self._offset_clause, self._limit_clause, start, stop\n        )"), "C18-R4")
+R.mutant("seed2-oracle-fetch-options-lost", OR,
+         sub("        if (\n            select._fetch_clause is not None\n            or not self.dialect._supports_offset_fetch\n        ):\n            return super()._row_limit_clause(",
+             "        if not self.dialect._supports_offset_fetch:\n            return super()._row_limit_clause("), "C18-R5")
+R.mutant("r5-pg-fetch-ignores-with-ties", "dialects/postgresql/base.py",
+         sub('                (\n                    "WITH TIES"\n                    if select._fetch_clause_options["with_ties"]\n                    else "ONLY"\n                ),\n', '                "ONLY",\n'), "C18-R5")
+R.mutant("r5-base-fetch-ignores-percent", "sql/compiler.py",
+         sub('                " PERCENT" if fetch_clause_options["percent"] else "",\n', '                "",\n'), "C18-R5")
+R.mutant("r5-mssql-offset-fetch-without-options-check", MS,
+         sub("            self._check_can_use_fetch_limit(select)\n\n            return self.fetch_clause(\n", "            return self.fetch_clause(\n"), "C18-R5")
+R.mutant("r5-mssql-top-ignores-with-ties", MS,
+         sub('                if select._fetch_clause_options["with_ties"]:\n                    s += "WITH TIES "\n', ''), "C18-R5")
+# benign relatives
+R.mutant("benign-slice-unconditional-add-commuted", UT,
+         sub("        if start != 0:\n            offset_clause = offset_clause + start  # type: ignore[operator]\n\n",
+             "        offset_clause = start + offset_clause  # type: ignore[operator]\n\n"), None)
+R.mutant("benign-slice-rename-local", UT,
+         sub("        limit_clause = _offset_or_limit_clause(stop - start)\n", "        _n = stop - start\n        limit_clause = _offset_or_limit_clause(_n)\n"), None)
+R.mutant("benign-oracle-early-returns", OR,
+         sub("        if (\n            select._fetch_clause is not None\n            or not self.dialect._supports_offset_fetch\n        ):\n            return super()._row_limit_clause(\n                select, use_literal_execute_for_simple_int=True, **kw\n            )\n        else:\n            return self.fetch_clause(\n                select,\n                fetch_clause=self._get_limit_or_fetch(select),\n                use_literal_execute_for_simple_int=True,\n                **kw,\n            )\n",
+             "        if select._fetch_clause is not None:\n            return super()._row_limit_clause(\n                select, use_literal_execute_for_simple_int=True, **kw\n            )\n        if not self.dialect._supports_offset_fetch:\n            return super()._row_limit_clause(\n                select, use_literal_execute_for_simple_int=True, **kw\n            )\n        return self.fetch_clause(\n            select,\n            fetch_clause=self._get_limit_or_fetch(select),\n            use_literal_execute_for_simple_int=True,\n            **kw,\n        )\n"), None)
+R.mutant("benign-oracle-passes-limit-itself", OR,
+         sub("                fetch_clause=self._get_limit_or_fetch(select),\n                use_literal_execute_for_simple_int=True,\n", "                fetch_clause=select._limit_clause,\n                use_literal_execute_for_simple_int=True,\n"), None)
